@@ -39,6 +39,9 @@ type Connection struct {
 
 	// Decrypted bytes which are not read yet
 	decrypted bytes.Buffer
+
+	// The session which was created for this connection
+	session Session
 }
 
 // NewConnection returns a hap connection.
@@ -50,6 +53,7 @@ func NewConnection(connection net.Conn, context Context) *Connection {
 
 	// Setup new session for the connection
 	session := NewSession(conn)
+	conn.session = session
 	context.SetSessionForConnection(session, conn)
 
 	return conn
@@ -155,7 +159,7 @@ func (con *Connection) Write(b []byte) (n int, err error) {
 
 	// The response to the last request is written.
 	// A cryptographer which was set while handling that request encrypts from now on.
-	if s, ok := con.context.GetSessionForConnection(con.connection).(*session); ok {
+	if s, ok := con.ownSession().(*session); ok {
 		s.activateNextCryptographer()
 	}
 
@@ -226,7 +230,7 @@ func (con *Connection) Close() error {
 	// (a controller which comes back quickly) may own the entry by now, it must be kept.
 	// The entry is only deleted while it still holds this connection's session: the new
 	// connection may be accepted at this very moment.
-	if session := con.context.GetSessionForConnection(con.connection); session != nil && session.Connection() == net.Conn(con) {
+	if session := con.ownSession(); session != nil {
 		con.context.DeleteSession(session)
 	}
 
@@ -258,10 +262,22 @@ func (con *Connection) SetWriteDeadline(t time.Time) error {
 	return con.connection.SetWriteDeadline(t)
 }
 
+// ownSession returns the session which was created for this connection, as long as it is
+// the one stored in the context. Sessions are stored by address: after the connection was
+// closed, or when a new connection from the same address has taken its place (a controller
+// which comes back before the end of this connection was noticed), the stored session is
+// not this connection's any more and must not be used by it.
+func (con *Connection) ownSession() Session {
+	if session := con.context.GetSessionForConnection(con.connection); session != nil && session == con.session {
+		return session
+	}
+
+	return nil
+}
+
 // getEncrypter returns the session's Encrypter, otherwise nil
 func (con *Connection) getEncrypter() crypto.Encrypter {
-	session := con.context.GetSessionForConnection(con.connection)
-	if session != nil {
+	if session := con.ownSession(); session != nil {
 		return session.Encrypter()
 	}
 
@@ -270,8 +286,7 @@ func (con *Connection) getEncrypter() crypto.Encrypter {
 
 // getDecrypter returns the session's Decrypter, otherwise nil
 func (con *Connection) getDecrypter() crypto.Decrypter {
-	session := con.context.GetSessionForConnection(con.connection)
-	if session != nil {
+	if session := con.ownSession(); session != nil {
 		return session.Decrypter()
 	}
 
